@@ -149,14 +149,14 @@ def run_case(case, rec):
         P, x = Pd; x = np.asarray(x, float)
         res, _ = dew_residual(dp, z, T0, P, x)
         rec.check(abs(res) <= 1e-6, 'dew-residual', f'solve_Px/{cls}', f'dew pressure {P!r} at T={T0}: 1 - sum(x) recomputed = {res!r} (z={z.tolist()}, ids={ids}, x={x.tolist()})', residual=abs(res))
-        rec.check(abs(x.sum() - 1) <= 1e-12 and (x >= 0).all(), 'normalised', 'solve_Px', f'returned x {x.tolist()} sums to {x.sum()!r}')
+        rec.check(abs(x.sum() - 1) <= 1e-12 and (x >= 0).all(), 'normalised', f'solve_Px/{cls}', f'returned x {x.tolist()} sums to {x.sum()!r}')
     if Td is not None:
         T, x = Td; x = np.asarray(x, float)
         if Tlo < T < Thi:
             res, _ = dew_residual(dp, z, T, P0, x)
             rec.check(abs(res) <= 1e-6, 'dew-residual', f'solve_Tx/{cls}', f'dew temperature {T!r} at P={P0}: 1 - sum(x) recomputed = {res!r} (z={z.tolist()}, ids={ids}, x={x.tolist()})', residual=abs(res))
         else: rec.refuse('dew temperature at the edge of the vapour-pressure domain (not judged)')
-        rec.check(abs(x.sum() - 1) <= 1e-12 and (x >= 0).all(), 'normalised', 'solve_Tx', f'returned x {x.tolist()} sums to {x.sum()!r}')
+        rec.check(abs(x.sum() - 1) <= 1e-12 and (x >= 0).all(), 'normalised', f'solve_Tx/{cls}', f'returned x {x.tolist()} sums to {x.sum()!r}')
     # ---- inverse relation
     if Pb is not None:
         r = call('inverse:solve_Ty(solve_Py)', lambda: bp.solve_Ty(z.copy(), Pb[0]))
